@@ -54,6 +54,8 @@ type mutantEntry struct {
 	Detected    *bool   `json:"detected,omitempty"`
 	DetectS     float64 `json:"detect_s,omitempty"`
 	Class       string  `json:"class,omitempty"`
+	Base        string  `json:"base,omitempty"` // newest /repo commit the patch applies to (seeded changes are diffs against the HEAD of their time)
+	Note        string  `json:"note,omitempty"`
 }
 
 func copyTree(src, dst string) error {
@@ -139,11 +141,27 @@ func selftestSensitivity(args []string) error {
 			os.RemoveAll(scratch)
 			return machinery("copy: %v", err)
 		}
+		onBase := ""
 		if o, err := run(tree, os.Environ(), "git", "apply", "--whitespace=nowarn", patchOf(e)); err != nil {
-			os.RemoveAll(scratch)
-			results[i] = fmt.Sprintf("%-40s PATCH DOES NOT APPLY: %s", e.Name, firstLines(o, 2))
-			fmt.Println(results[i])
-			continue
+			// the working tree has moved on (a later fix touched the same lines): fall back to the
+			// newest commit the patch applies to
+			applied := false
+			if e.Base != "" {
+				os.RemoveAll(tree)
+				os.MkdirAll(tree, 0o755)
+				if _, err2 := run(repoRoot(), os.Environ(), "sh", "-c", fmt.Sprintf("git archive %s | tar -x -C %s", e.Base, tree)); err2 == nil {
+					if _, err3 := run(tree, os.Environ(), "git", "apply", "--whitespace=nowarn", patchOf(e)); err3 == nil {
+						applied = true
+						onBase = " (on base " + e.Base + ")"
+					}
+				}
+			}
+			if !applied {
+				os.RemoveAll(scratch)
+				results[i] = fmt.Sprintf("%-40s PATCH DOES NOT APPLY: %s", e.Name, firstLines(o, 2))
+				fmt.Println(results[i])
+				continue
+			}
 		}
 		if suite {
 			o, err := run(tree, goEnv(), "go", "test", "-mod=mod", "-vet=off", "-count=1", "-timeout", "25m", "./...")
@@ -216,7 +234,7 @@ func selftestSensitivity(args []string) error {
 		if e.SuitePasses != nil {
 			sp = fmt.Sprintf(" suite_passes=%v", *e.SuitePasses)
 		}
-		results[i] = fmt.Sprintf("%-40s %s %-7s %5.1fs%s  %s", e.Name, e.Property, status, e.DetectS, sp, e.Class)
+		results[i] = fmt.Sprintf("%-40s %s %-7s %5.1fs%s  %s%s", e.Name, e.Property, status, e.DetectS, sp, e.Class, onBase)
 		fmt.Println(results[i])
 		os.RemoveAll(scratch)
 	}
